@@ -11,6 +11,11 @@ From AK Require Import C20.PyLib C20.PyLibLemmas gen.C20_Translated C20.TransIns
 Import ListNotations.
 Open Scope Z_scope.
 
+(* the current source is inside the translator's subset (otherwise gen/C20_Translated.v is a
+   stub and this is the obligation that fails) *)
+Lemma translation_is_available : translation_available = true.
+Proof. reflexivity. Qed.
+
 (* ------------------------------------------------------------------ *)
 (* the module constants, as translated, against the extracted ones      *)
 
